@@ -7,6 +7,7 @@ import Peppi.UbjsonProof
 import Peppi.Lemmas.PeppiRound
 import Peppi.JsonText
 import Peppi.SlppBytes
+import Peppi.UbjsonRound
 set_option linter.unusedVariables false
 namespace Peppi.Props.C16
 
@@ -56,6 +57,21 @@ theorem slppRead_written_json {φ : Type} (C : Codec KVs φ) (T : TextOracle) (g
     slppRead C.withJsonMeta T skip (slppWrite C.withJsonMeta g startBytes endBytes) =
       .ok (if skip then { g with frames := none } else { g with frames := g.frames.map C.norm }) :=
   _root_.Peppi.slppRead_written_json C T g startBytes endBytes hstart hend hgecko hs skip
+
+/- from `Peppi.UbjsonRound` -/
+theorem C16_write_read (utf8 : Bytes → Bool) (m : KVs) (rest : Bytes) (h : KVs.WF utf8 1 m) :
+    ∃ bs, writeMap m = .ok bs ∧ readMap utf8 (bs ++ 0x7d :: rest) = .ok (m, rest) :=
+  _root_.Peppi.C16_write_read utf8 m rest h
+
+/- from `Peppi.UbjsonRound` -/
+theorem C16_read_write (utf8 : Bytes → Bool) (m : KVs) (rest : Bytes) (h : KVs.WF utf8 1 m) :
+    ∃ t r, readMap utf8 (encKVs m ++ 0x7d :: rest) = .ok (t, r) ∧ r = rest ∧ writeMap t = .ok (encKVs m) :=
+  _root_.Peppi.C16_read_write utf8 m rest h
+
+/- from `Peppi.UbjsonRound` -/
+theorem encKVs_inj (utf8 : Bytes → Bool) (m1 m2 : KVs) (h1 : KVs.WF utf8 1 m1) (h2 : KVs.WF utf8 1 m2)
+    (h : encKVs m1 = encKVs m2) : m1 = m2 :=
+  _root_.Peppi.encKVs_inj utf8 m1 m2 h1 h2 h
 
 theorem writeMap_enc (utf8 : Bytes → Bool) (m : KVs) (d : Nat) (h : KVs.WF utf8 d m) :
     writeMap m = .ok (encKVs m) :=
